@@ -16,6 +16,7 @@ from .mirutil import root_place, deep_root, defuse
 from .cfg import term_succs
 
 INF = float("inf")
+FIELD_INVARIANTS = {}
 _IN_PROGRESS = set()
 # assumption (listed in evidence): the clock returns seconds since boot/epoch, far below 2^62
 NOW_RANGE = (0, 1 << 62)
@@ -49,18 +50,20 @@ def meet(a, b):
 
 
 class State:
-    __slots__ = ("v", "alias", "dead")
+    __slots__ = ("v", "alias", "dead", "on_escape")
 
     def __init__(self):
         self.v = {}
         self.alias = {}   # local -> var it mirrors (e.g. local holding len(key))
         self.dead = False
+        self.on_escape = None
 
     def copy(self):
         s = State()
         s.v = dict(self.v)
         s.alias = dict(self.alias)
         s.dead = self.dead
+        s.on_escape = self.on_escape
         return s
 
     def get(self, var):
@@ -82,7 +85,9 @@ class State:
             self.v[var] = m
 
     def kill_local(self, l):
-        for k in [k for k in self.v if (k[0] in ("l", "some", "pay", "it") and k[1] == l) or (k[0] == "len" and k[1][0] == l)]:
+        for k in [k for k in self.v if (k[0] in ("l", "some", "pay", "it", "f") and k[1] == l) or (k[0] == "len" and k[1][0] == l)]:
+            if k[0] == "f" and self.on_escape is not None:
+                self.on_escape(k, self.v[k])
             del self.v[k]
         self.alias.pop(l, None)
         for k in [k for k, a in self.alias.items() if (a[0] == "l" and a[1] == l) or (a[0] in ("len", "empty", "issome", "isnone") and a[1][0] == l)]:
@@ -96,10 +101,26 @@ class State:
             self.v = dict(other.v)
             self.alias = dict(other.alias)
             self.dead = False
+            self.on_escape = other.on_escape
             return True
         changed = False
+        # a field var tracked on one side only: the other side still holds the (assumed) invariant
+        for k, vv in other.v.items():
+            if k[0] == "f" and k not in self.v:
+                inv = invariant_of(k)
+                if inv is not None:
+                    self.v[k] = inv
+                    changed = True
         for k in list(self.v.keys()):
             if k not in other.v:
+                inv = invariant_of(k) if k[0] == "f" else None
+                if inv is not None:
+                    a = self.v[k]
+                    j = (min(a[0], inv[0]), max(a[1], inv[1]))
+                    if j != a:
+                        self.v[k] = j
+                        changed = True
+                    continue
                 del self.v[k]
                 changed = True
                 continue
@@ -119,6 +140,15 @@ class State:
         return changed
 
 
+def invariant_of(fvar):
+    """Invariant interval registered for the last field of a tracked field var, if any."""
+    adt, name = fvar[2][-1]
+    for (a, f), itv in FIELD_INVARIANTS.items():
+        if f == name and adt and (adt == a or adt.endswith("::" + a)):
+            return itv
+    return None
+
+
 def key_of(body, place):
     """Canonical key of the sequence a place denotes: (root local, tuple of field names/downcasts)."""
     r = deep_root(body, place)
@@ -135,6 +165,21 @@ def key_of(body, place):
         else:
             return None
     return (r["l"], tuple(path))
+
+
+def field_var(place):
+    """('f', local, path) for places of the form local(.field | deref)* with at least one field, else None."""
+    path = []
+    for e in place.get("p", []):
+        if e["k"] == "deref":
+            continue
+        if e["k"] == "field":
+            path.append((e.get("adt"), str(e.get("n", e["i"]))))
+        else:
+            return None
+    if not path:
+        return None
+    return ("f", place["l"], tuple(path))
 
 
 class Intervals:
@@ -206,6 +251,13 @@ class Intervals:
         # payload of Some
         if len(proj) == 2 and proj[0]["k"] == "downcast" and proj[1]["k"] == "field" and proj[1]["i"] == 0:
             v = st.get(("pay", place["l"]))
+            if v is not None:
+                m = meet(v, tr)
+                return tr if m == "bottom" else m
+        # tracked field of a (reference) local
+        fv = field_var(place)
+        if fv is not None and any(e["k"] == "deref" for e in proj):
+            v = st.get(fv)
             if v is not None:
                 m = meet(v, tr)
                 return tr if m == "bottom" else m
@@ -405,6 +457,9 @@ class Intervals:
             return ("l", p["l"])
         if len(proj) == 1 and proj[0]["k"] == "field":
             return ("l", p["l"], proj[0]["i"])
+        fv = field_var(p)
+        if fv is not None and any(e["k"] == "deref" for e in proj):
+            return fv
         return None
 
     def assign(self, st, stmt):
@@ -416,6 +471,9 @@ class Intervals:
             # store through a projection: only tuple-field of local is tracked
             if len(proj) == 1 and proj[0]["k"] == "field" and body.place_ty(place).int_range() is not None:
                 st.set(("l", place["l"], proj[0]["i"]), self._rv_itv(st, rv, body.place_ty(place)))
+            fv = field_var(place)
+            if fv is not None and any(e["k"] == "deref" for e in proj) and body.place_ty(place).int_range() is not None:
+                st.set(fv, self._rv_itv(st, rv, body.place_ty(place)))
             return
         l = place["l"]
         dty = body.local_ty(l)
@@ -587,6 +645,12 @@ class Intervals:
             li = self.len_itv(st, args[0])
             if li[1] >= 1:
                 extra[("pay", d)] = (0, li[1] - 1)
+        elif ends("clone::Clone::clone") and len(args) == 1 and dty.int_range() is not None and op_place(args[0]) is not None:
+            r = root_place(body, op_place(args[0]))
+            pl = dict(r)
+            if not any(e["k"] == "deref" for e in pl.get("p", [])[-1:]):
+                pass
+            itv = self.place_itv(st, pl) if body.place_ty(pl).int_range() is not None or True else None
         elif ends("util::TimeSource::now") and not args:
             itv = NOW_RANGE
         elif ends("cmp::min", "cmp::Ord::min") and len(args) == 2:
@@ -695,6 +759,18 @@ class Intervals:
             # handled through deep_root aliasing: nothing to do
             pass
         st.kill_local(d)
+        for a in args:
+            p = op_place(a)
+            if p is None:
+                continue
+            aty = body.place_ty(p)
+            r = root_place(body, p)
+            if aty.k == "ref" or aty.k == "ptr":
+                for kk in [k for k in st.v if k[0] == "f" and k[1] == r["l"]]:
+                    if st.on_escape is not None:
+                        st.on_escape(kk, st.v[kk])
+                    if aty.d.get("mut"):
+                        del st.v[kk]
         # a &mut borrow of a tracked integer local passed to a call may change it
         for a in args:
             p = op_place(a)
@@ -850,6 +926,13 @@ class Intervals:
                                     src = self.var_of_op(st, rv2["op"])
                         if src is not None and src[0] == "l" and len(src) == 2 and self._ssa_like(src[1]):
                             refine_var(src, itv, depth + 1)
+                        elif src is not None and src[0] == "f" and dd[1] == self._cur_block and self._field_unchanged_after(dd[1], dd[2], src):
+                            cur = st.get(src)
+                            if cur is None:
+                                inv = invariant_of(src)
+                                if inv is not None:
+                                    st.set(src, inv)
+                            st.refine(src, itv)
 
         if op == "Lt":
             refine_var(va, (-INF, bi_[1] - 1))
@@ -877,6 +960,15 @@ class Intervals:
                     refine_var(vb, (bi_[0] + 1, INF))
                 elif bi_[1] == ai[0]:
                     refine_var(vb, (-INF, bi_[1] - 1))
+
+    def _field_unchanged_after(self, bi, si, fvar):
+        """No statement after index si in block bi stores to the tracked field (the terminator is the branch)."""
+        for s2 in self.body.blocks[bi]["stmts"][si + 1:]:
+            if s2["k"] == "assign" and s2["place"].get("p") and field_var(s2["place"]) == fvar:
+                return False
+            if s2["k"] == "assign" and s2["place"]["l"] == fvar[1] and not s2["place"].get("p"):
+                return False
+        return True
 
     def _ssa_like(self, l):
         """The local holds one value for its whole life: an argument never reassigned or a local with a
@@ -994,6 +1086,14 @@ class Intervals:
                 init.set(("l", l), self.param_inv[l])
         for k, v in self.param_len.items():
             init.set(("len", k), v)
+        self.escapes = {}
+        self._cur_block = 0
+
+        def on_escape(var, val):
+            key = (self._cur_block, var)
+            old = self.escapes.get(key)
+            self.escapes[key] = val if old is None else join(old, val)
+        init.on_escape = on_escape
         self.block_in = {0: init}
         visits = {}
         work = [0]
@@ -1005,12 +1105,17 @@ class Intervals:
             st = self.block_in[bi].copy()
             if st.dead:
                 continue
+            self._cur_block = bi
             for s in body.blocks[bi]["stmts"]:
                 if s["k"] == "assign":
                     self.assign(st, s)
                 elif s["k"] == "set_discr":
                     pass
             self.results[bi] = st
+            if body.blocks[bi]["term"]["k"] == "return":
+                for kk, vv in st.v.items():
+                    if kk[0] == "f":
+                        st.on_escape(kk, vv)
             for (succ, ns) in self.edge_states(bi, st):
                 if ns.dead:
                     continue
@@ -1028,9 +1133,6 @@ class Intervals:
     # ------------------------------------------------------------ queries
     def state_at(self, bi):
         return self.results.get(bi)
-
-
-FIELD_INVARIANTS = {}
 
 
 def load_invariants():
@@ -1055,53 +1157,72 @@ def analyse(body, field_inv=None):
 
 
 def check_field_invariants(prog):
-    """Assume-guarantee: every construction of / store to an invariant-carrying field re-establishes the
-    invariant. Returns list of (ok, adt, field, body, block, interval)."""
+    """Assume-guarantee for field invariants. Loads of an invariant-carrying field assume the invariant unless the
+    field is being tracked since a store in the same function. Guarantee: (a) every construction supplies a value
+    inside the invariant; (b) whenever a stored-to object can be observed again - function return, the reference
+    being handed to a call, the reference local being re-assigned (next loop iteration) - the tracked value is
+    inside the invariant; (c) stores through places the analysis cannot track, and &mut borrows of the field
+    itself, fail. Returns list of (ok, adt, field, body, block, interval)."""
     from .mirutil import adt_match
     out = []
     for (adt, field), itv in FIELD_INVARIANTS.items():
         for b in prog.bodies:
+            has_store = False
             for bi, si, s in b.stmts():
                 if s["k"] != "assign":
                     continue
                 rv = s["rv"]
-                val_op = None
                 if rv["k"] == "aggregate" and rv.get("agg") == "adt" and adt_match(rv["adt"], adt) and field in rv.get("fields", []):
                     val_op = rv["ops"][rv["fields"].index(field)]
-                else:
-                    pe = [e for e in s["place"].get("p", []) if e["k"] == "field"]
-                    if pe and pe[-1].get("n") == field and adt_match(pe[-1].get("adt"), adt):
-                        if rv["k"] == "use":
-                            val_op = rv["op"]
-                        else:
-                            out.append((False, adt, field, b, bi, None))
+                    an = analyse(b)
+                    st = an.block_in.get(bi)
+                    if st is None:
+                        continue
+                    st = st.copy()
+                    for s2 in b.blocks[bi]["stmts"]:
+                        if s2 is s:
+                            break
+                        if s2["k"] == "assign":
+                            an.assign(st, s2)
+                    v = an.op_itv(st, val_op)
+                    out.append((v is not None and v[0] >= itv[0] and v[1] <= itv[1], adt, field, b, bi, v))
+                    continue
+                pe = [e for e in s["place"].get("p", []) if e["k"] == "field"]
+                if pe and pe[-1].get("n") == field and adt_match(pe[-1].get("adt"), adt):
+                    fv = field_var(s["place"])
+                    if fv is None or not any(e["k"] == "deref" for e in s["place"]["p"]):
+                        # store the analysis cannot follow (index projection / by-value local): check the stored value itself
+                        an = analyse(b)
+                        st = an.block_in.get(bi)
+                        if st is None:
                             continue
-                if val_op is None:
-                    continue
-                an = analyse(b)
-                # state just before this statement: replay the block
-                st = an.block_in.get(bi)
-                if st is None:
-                    continue
-                st = st.copy()
-                for s2 in b.blocks[bi]["stmts"]:
-                    if s2 is s:
-                        break
-                    if s2["k"] == "assign":
-                        an.assign(st, s2)
-                v = an.op_itv(st, val_op)
-                ok = v is not None and v[0] >= itv[0] and v[1] <= itv[1]
-                out.append((ok, adt, field, b, bi, v))
-            # &mut borrows of the field hand the write to someone else
-            for bi, si, s in b.stmts():
-                if s["k"] == "assign" and s["rv"]["k"] in ("ref", "rawptr") and s["rv"].get("mut"):
-                    pe = [e for e in s["rv"]["place"].get("p", []) if e["k"] == "field"]
+                        st = st.copy()
+                        for s2 in b.blocks[bi]["stmts"]:
+                            if s2 is s:
+                                break
+                            if s2["k"] == "assign":
+                                an.assign(st, s2)
+                        v = an._rv_itv(st, rv, b.place_ty(s["place"]))
+                        out.append((v is not None and v[0] >= itv[0] and v[1] <= itv[1], adt, field, b, bi, v))
+                    else:
+                        has_store = True
+                if rv["k"] in ("ref", "rawptr") and rv.get("mut"):
+                    pe = [e for e in rv["place"].get("p", []) if e["k"] == "field"]
                     if pe and pe[-1].get("n") == field and adt_match(pe[-1].get("adt"), adt):
                         out.append((False, adt, field, b, bi, None))
+            if has_store:
+                an = analyse(b)
+                n = 0
+                for (bi, var), v in sorted(an.escapes.items(), key=lambda kv: (kv[0][0], str(kv[0][1]))):
+                    last = var[2][-1]
+                    if last[1] == field and adt_match(last[0], adt):
+                        n += 1
+                        out.append((v[0] >= itv[0] and v[1] <= itv[1], adt, field, b, bi, v))
+                if n == 0:
+                    # stores exist but no observation point was recorded: unreachable code or analysis gap -> fail closed
+                    out.append((False, adt, field, b, 0, None))
     return out
 
-
-# ---------------------------------------------------------------------------- discharge of panic sites
 
 def discharge_in_contexts(site, region):
     """Second attempt for functions with slice parameters: analyse the function once per call site inside
